@@ -21,7 +21,9 @@ for kw in ({"head": 2}, {"tail": 2}):
         obs[str(kw)] = f"returned {rows}"
         bad = bad or rows != [1, 3]
     except (pa.errors.SchemaError, pa.errors.SchemaErrors) as e:
-        obs[str(kw)] = "raised " + type(e).__name__
+        # (the only invalid row is among the validated rows: drop_invalid_rows has to remove it and return [1, 3], as pandas does)
+        obs[str(kw)] = "raised " + type(e).__name__ + " instead of returning [1, 3]"
+        bad = True
     except Exception as e:  # noqa: BLE001
         obs[str(kw)] = f"leaked {type(e).__name__}: {e}"[:140]
         bad = True
